@@ -364,11 +364,19 @@ theorem noFaultX {κ : Type} (ks : KeySys κ) (io : FloatIO) :
     intro k'
     split
     · split
-      · simp
-      · exact arrayOf_no_fault _ _ _ (noFaultX_entryArrs ks io es _ _ (cfOfG_goOK ks m h _)) k'
+      · split
+        · simp
+        · exact arrayOf_no_fault _ _ _ (noFaultX_entryArrs ks io es _ _ (cfOfG_goOK ks m h _)) k'
+      · split
+        · simp
+        · exact hashOf_no_fault _ _ _ _ (noFaultX_pairs ks io es m _ _ h (cfOfG_goOK ks m h _)) k'
     · split
-      · simp
-      · exact hashOf_no_fault _ _ _ _ (noFaultX_pairs ks io es m _ _ h (cfOfG_goOK ks m h _)) k'
+      · split
+        · simp
+        · exact arrayOf_no_fault _ _ _ (noFaultX_entryArrs ks io es _ _ (cfOfG_goOK ks m h _)) k'
+      · split
+        · simp
+        · exact hashOf_no_fault _ _ _ _ (noFaultX_pairs ks io es m _ _ h (cfOfG_goOK ks m h _)) k'
   | .array vs, m, ind, h, k => by
     simp only [fmtX]
     split
